@@ -918,6 +918,12 @@ func symbolByName(name string) *symbol {
 }
 
 func replay() {
+	var sc sharedCase
+	if err := mc.LoadReplay(chk.ReplayFile(), &sc); err == nil && sc.Kind == "shared-hints" {
+		fmt.Printf("replay %+v: the shared-hints sub-space is re-run as a whole (it takes seconds)\n", sc)
+		runSharedHints()
+		return
+	}
 	var c caseRec
 	if err := mc.LoadReplay(chk.ReplayFile(), &c); err != nil {
 		fmt.Println("cannot read replay:", err)
@@ -956,5 +962,6 @@ func main() {
 	runLargeScales()
 	runHintedQR()
 	runHistory()
+	runSharedHints()
 	chk.Finish()
 }
